@@ -154,7 +154,7 @@ def _entries(ctx, index, funcs):
             ctx.ob(
                 "C14.entry",
                 f,
-                "return ({}, {})".format(short(r.value.elts[0], 30), x.id),
+                "returns the adopted entry `{}` ({})".format(x.id, "dict(...) of source keywords" if "dict(" in origin else "foreign object adopted in place"),
                 closed,
                 ""
                 if closed
@@ -225,7 +225,7 @@ def _removals(ctx, index, funcs):
             ctx.ob(
                 "C14.entry",
                 f,
-                "remove {}[{}] when `{}`".format(x, k, short(guard, 60)),
+                "foreign key {} is removed whenever present".format(k),
                 member,
                 ""
                 if member
